@@ -62,6 +62,19 @@ func (se *SpecEnv) evalBool(e SExpr) (Term, error) {
 	return v.T, nil
 }
 
+// ld loads a value for a spec expression and records its type invariant
+// (integer range, slice shape) as a global fact, unless the address mentions a
+// bound variable.
+func (se *SpecEnv) ld(a *Addr, t types.Type) Term {
+	v := se.ex.load(se.st, se.pc, a, t)
+	if (v.Sort == SInt || v.Sort == SSlice) && !strings.Contains(v.S, "!q") {
+		nv := se.ex.vc.def("sv", v)
+		se.ex.assumeType(tTrue, nv, t)
+		return nv
+	}
+	return v
+}
+
 func (se *SpecEnv) value(v SVal) Term {
 	if v.T.S != "" || v.T.Clo != nil {
 		return v.T
@@ -280,7 +293,7 @@ func (se *SpecEnv) ident(name string) SVal {
 				if isStruct(el) && a.Local == nil {
 					return SVal{Ty: el, A: a}
 				}
-				v := se.ex.load(se.st, se.pc, a, el)
+				v := se.ld(a, el)
 				if a.Local != nil {
 					if cur, ok := se.st.m[a.Local.Key]; ok && cur.Clo != nil {
 						v.Clo = cur.Clo
@@ -302,7 +315,7 @@ func (se *SpecEnv) ident(name string) SVal {
 				if isStruct(el) && a.Local == nil {
 					return SVal{Ty: el, A: a}
 				}
-				return SVal{T: se.ex.load(se.st, se.pc, a, el), Ty: el, A: a}
+				return SVal{T: se.ld(a, el), Ty: el, A: a}
 			}
 		}
 	}
@@ -456,7 +469,7 @@ func (se *SpecEnv) fieldStep(x SVal, idx int) SVal {
 		if _, isArr := isArray(ft); isArr {
 			return SVal{Ty: ft, A: a}
 		}
-		return SVal{T: ex.load(se.st, se.pc, a, ft), Ty: ft, A: a}
+		return SVal{T: se.ld(a, ft), Ty: ft, A: a}
 	}
 	stt, ok := t.Underlying().(*types.Struct)
 	if !ok {
@@ -468,7 +481,7 @@ func (se *SpecEnv) fieldStep(x SVal, idx int) SVal {
 			si := ex.te.structInfo(t)
 			path := append(append([]pathStep{}, x.A.Path...), pathStep{field: idx, si: si})
 			a := &Addr{Local: x.A.Local, Path: path, Elem: ft}
-			return SVal{T: ex.load(se.st, se.pc, a, ft), Ty: ft, A: a}
+			return SVal{T: se.ld(a, ft), Ty: ft, A: a}
 		}
 		a := ex.fieldAddr(x.A.Ref, t, idx)
 		if isStruct(ft) {
@@ -477,7 +490,7 @@ func (se *SpecEnv) fieldStep(x SVal, idx int) SVal {
 		if _, isArr := isArray(ft); isArr {
 			return SVal{Ty: ft, A: a}
 		}
-		return SVal{T: ex.load(se.st, se.pc, a, ft), Ty: ft, A: a}
+		return SVal{T: se.ld(a, ft), Ty: ft, A: a}
 	}
 	si := ex.te.structInfo(t)
 	return SVal{T: ex.te.fieldGet(si, x.T, idx), Ty: ft}
@@ -500,14 +513,14 @@ func (se *SpecEnv) index(e *SIndex) SVal {
 		if isStruct(xt.Elem()) {
 			return SVal{Ty: xt.Elem(), A: a}
 		}
-		return SVal{T: ex.load(se.st, se.pc, a, xt.Elem()), Ty: xt.Elem(), A: a}
+		return SVal{T: se.ld(a, xt.Elem()), Ty: xt.Elem(), A: a}
 	case *types.Array:
 		if x.A != nil && x.A.Local == nil {
 			a := &Addr{Ref: refElem(x.A.Ref, i), Elem: xt.Elem()}
 			if isStruct(xt.Elem()) {
 				return SVal{Ty: xt.Elem(), A: a}
 			}
-			return SVal{T: ex.load(se.st, se.pc, a, xt.Elem()), Ty: xt.Elem(), A: a}
+			return SVal{T: se.ld(a, xt.Elem()), Ty: xt.Elem(), A: a}
 		}
 		return SVal{T: sel(se.value(x), i, ex.te.sortOf(xt.Elem())), Ty: xt.Elem()}
 	case *types.Map:
@@ -523,7 +536,7 @@ func (se *SpecEnv) index(e *SIndex) SVal {
 		if arr, ok := xt.Elem().Underlying().(*types.Array); ok {
 			ref := se.value(x)
 			a := &Addr{Ref: refElem(ref, i), Elem: arr.Elem()}
-			return SVal{T: ex.load(se.st, se.pc, a, arr.Elem()), Ty: arr.Elem(), A: a}
+			return SVal{T: se.ld(a, arr.Elem()), Ty: arr.Elem(), A: a}
 		}
 	}
 	return se.fail("index on %s", x.Ty)
